@@ -65,7 +65,17 @@ func genCase(prop string) func(t *rapid.T) Case {
 		}
 		if prop == "C14" || rapid.IntRange(0, 2).Draw(t, "hasretry") == 0 {
 			if prop != "C14" || rapid.IntRange(0, 3).Draw(t, "retry") != 0 {
-				c.Retry = rapid.SliceOfN(rapid.SampledFrom([]int{10, 10, 25, 50, -1}), 1, 4).Draw(t, "bo")
+				c.Retry = rapid.SliceOfN(rapid.SampledFrom([]int{10, 10, 25, 50, -1, 0}), 1, 4).Draw(t, "bo")
+				// an all-zero script would retry a failing routine forever within one instant
+				allZero := true
+				for _, d := range c.Retry {
+					if d != 0 {
+						allZero = false
+					}
+				}
+				if allZero {
+					c.Retry = append(c.Retry, 10)
+				}
 			}
 		}
 		if len(c.Retry) > 0 && rapid.IntRange(0, 5).Draw(t, "disable") == 0 {
@@ -392,7 +402,10 @@ func body(c *sched.Ctl, cs Case, v *ev.Verdict) {
 				rec := recByPtr[tk.Obj]
 				hm.Unlock()
 				if rec != nil {
-					c.LabelGoid(tk.Goid(), fmt.Sprintf("tr%03d", rec.gen))
+					hm.Lock()
+					id := m.BindCallback(rec)
+					hm.Unlock()
+					c.LabelGoid(tk.Goid(), fmt.Sprintf("tr%03d.%d", rec.gen, id))
 				} else {
 					c.LabelGoid(tk.Goid(), "tr-unknown")
 				}
@@ -453,12 +466,12 @@ func body(c *sched.Ctl, cs Case, v *ev.Verdict) {
 		}
 		if strings.HasPrefix(tk.Label, "tr") {
 			// retry timer callback of a known record
-			var gen int
-			if _, err := fmt.Sscanf(tk.Label, "tr%d", &gen); err == nil {
+			var gen, tid int
+			if _, err := fmt.Sscanf(tk.Label, "tr%d.%d", &gen, &tid); err == nil {
 				for _, rec := range recByPtr {
 					if rec.gen == gen {
 						before := len(m.toks)
-						if m.TimerSection(rec) {
+						if m.TimerSectionID(rec, tid) {
 							staleTimerSections++
 						}
 						if len(m.toks) > before {
